@@ -4,4 +4,5 @@ CONSTANTS
   Ws = {1, 2}
   MaxN = 8
 INVARIANT FormulaSafe
+INVARIANT Monotone
 CHECK_DEADLOCK FALSE
